@@ -47,6 +47,8 @@ type event struct {
 	dt          uint64
 	udp         bool
 	otherFamily bool
+	hiGroup     bool // evFlip: the high-id proxy group instead of g1
+	burst       bool // evFrame: the frame is sent twice back to back before dae reads either record
 }
 
 func (ev *event) malformed() bool { return ev.flavour == ipFragNI || ev.truncate > 0 }
@@ -60,6 +62,7 @@ type scenario struct {
 	redirectPeer bool
 	short        bool // frames without payload (< 128 bytes): the direct-access parser only runs with a lenient pull
 	progA, progB int
+	hiGroup      uint8 // id of the high-numbered proxy group the rule programs use (0: none)
 	depth        int
 	progs        []*ruleProgram
 	addrs        addrSet
@@ -161,6 +164,25 @@ func buildScenario(progs []*ruleProgram, side int, v6, ext, l2, peer, short bool
 		event{name: "tick+121s", kind: evTick, dt: 121 * sec},
 		event{name: "flip-g1-tcp", kind: evFlip},
 		event{name: "flip-g1-udp", kind: evFlip, udp: true},
+	)
+	for _, pi := range []int{sc.progA, sc.progB} {
+		if h := progs[pi].hi; h != 0 {
+			if sc.hiGroup != 0 && sc.hiGroup != h {
+				broken("scenario %s uses two high-id groups", sc.name)
+			}
+			sc.hiGroup = h
+		}
+	}
+	if sc.hiGroup != 0 {
+		sc.events = append(sc.events,
+			event{name: fmt.Sprintf("flip-h%d-tcp", sc.hiGroup), kind: evFlip, hiGroup: true},
+			event{name: fmt.Sprintf("flip-h%d-udp", sc.hiGroup), kind: evFlip, hiGroup: true, udp: true},
+		)
+	}
+	// two datagrams of one flow pass the hook before dae has read the record of the first
+	sc.events = append(sc.events,
+		event{name: "twice." + hk + ".D.DGRAM", kind: evFrame, hook: hookRouted, conv: D, flavour: flav, burst: true},
+		event{name: "twice." + hk + ".U.DGRAM", kind: evFrame, hook: hookRouted, conv: U, flavour: flav, burst: true},
 	)
 	fr(hookRouted, T, "FIN", fFIN|fACK)
 	fr(hookRouted, T, "RST", fRST)
@@ -399,11 +421,14 @@ func (s *script) applyEnv(sc *scenario, m *model, ev *event) {
 		if ev.udp {
 			i = 1
 		}
-		if ev.otherFamily {
+		switch {
+		case ev.otherFamily:
 			// the other family's bit goes down and stays down: must never matter for this family's flows
 			s.setAlive(groupG1, ev.udp, !sc.v6, false)
-		} else {
-			s.setAlive(groupG1, ev.udp, sc.v6, m.dead[i]) // dead -> alive, alive -> dead
+		case ev.hiGroup:
+			s.setAlive(sc.hiGroup, ev.udp, sc.v6, m.dead[1][i])
+		default:
+			s.setAlive(groupG1, ev.udp, sc.v6, m.dead[0][i]) // dead -> alive, alive -> dead
 		}
 	case evFull:
 		if m.full {
@@ -416,10 +441,23 @@ func (s *script) applyEnv(sc *scenario, m *model, ev *event) {
 
 const recoverDelayNs = 1000000 // 1 ms between the redirect and RetrieveRoutingResult
 
+// one injected frame: verdict and the maps after it
+type frameObs struct {
+	v  *vkern.Verdict
+	st *kstate
+}
+
+// one run of an event on one parsing path. A burst event injects its frame twice back to back (pre holds the first
+// injection, v/st the last); the control plane reads the hand-over records only after the last frame.
 type frameRun struct {
 	v    *vkern.Verdict
 	st   *kstate
+	pre  []*frameObs
 	mode uint32
+}
+
+func (r *frameRun) all() []*frameObs {
+	return append(append([]*frameObs(nil), r.pre...), &frameObs{v: r.v, st: r.st})
 }
 
 // ---------------------------------------------------------------------------------------------------------------
@@ -542,7 +580,8 @@ type trial struct {
 	ei    int
 	ev    *event
 	m2    *model
-	want  expect
+	want  expect   // of the last frame
+	wants []expect // per injected frame
 	skb   *vkern.Skb
 	fs    *frameSpec
 	ipOff int
@@ -573,10 +612,13 @@ func (x *explorer) expand(e *kenv, n *node) []succ {
 		if ev.kind == evFrame {
 			skb, _, _ := sc.skbFor(ev)
 			sA.inject(sc.hookName(ev), skb, nil)
+			if ev.burst {
+				sA.inject(sc.hookName(ev), skb, nil)
+			}
 		} else {
 			sA.applyEnv(sc, rm, ev)
 		}
-		sc.step(rm, ev)
+		sc.stepAll(rm, ev)
 	}
 	var snap uint32
 	sA.snapshot(&snap)
@@ -599,9 +641,16 @@ func (x *explorer) expand(e *kenv, n *node) []succ {
 			t.envSt = sB.observe(k)
 			continue
 		}
-		t.want = sc.step(t.m2, ev)
+		nframes := 1
+		if ev.burst {
+			nframes = 2
+		}
+		for i := 0; i < nframes; i++ {
+			t.want = sc.step(t.m2, ev)
+			t.wants = append(t.wants, t.want)
+			x.frames.Add(1)
+		}
 		t.skb, t.fs, t.ipOff = sc.skbFor(ev)
-		x.frames.Add(1)
 		modes := []uint32{vkern.PullKernel, vkern.PullAlwaysFail}
 		if len(t.skb.Frame) < 128 {
 			modes = []uint32{vkern.PullLenient, vkern.PullKernel, vkern.PullAlwaysFail}
@@ -611,6 +660,12 @@ func (x *explorer) expand(e *kenv, n *node) []succ {
 			sB.restore(snap)
 			if mode != vkern.PullKernel {
 				sB.setKnobs(mode) // the snapshot carries PullKernel
+			}
+			for i := 1; i < nframes; i++ {
+				o := &frameObs{}
+				sB.inject(sc.hookName(ev), t.skb, &o.v)
+				o.st = sB.observe(k)
+				r.pre = append(r.pre, o)
 			}
 			sB.inject(sc.hookName(ev), t.skb, &r.v)
 			r.st = sB.observe(k)
@@ -630,6 +685,9 @@ func (x *explorer) expand(e *kenv, n *node) []succ {
 		ev, skb, want, m2 := t.ev, t.skb, t.want, t.m2
 		for _, r := range t.runs {
 			r.st.sort()
+			for _, o := range r.pre {
+				o.st.sort()
+			}
 			if r.v.LoadBytesCalls > 0 && r.v.PullFails > 0 {
 				x.slowRuns.Add(1)
 			} else {
@@ -638,33 +696,70 @@ func (x *explorer) expand(e *kenv, n *node) []succ {
 		}
 		// (1) no verdict depends on the header-parsing path
 		a := t.runs[0]
-		ca := a.st.canon(m2.now, nil)
 		for _, b := range t.runs[1:] {
-			if !sameVerdict(a.v, b.v) || !bytes.Equal(ca, b.st.canon(m2.now, nil)) {
-				t.bad = true
-				x.report("parse-path", n.path, t.ei, fmt.Sprintf("the verdict or the resulting map state depends on the header-parsing path: pull mode %d (%s) -> %s ; pull mode %d (%s) -> %s%s",
-					a.mode, pathName(a.v), verdictString(a.v), b.mode, pathName(b.v), verdictString(b.v), stateDiff(a.st, b.st)),
-					map[string]any{"frame": hex.EncodeToString(skb.Frame), "hook": sc.hookName(ev), "maps_path_a": dumpState(a.st), "maps_path_b": dumpState(b.st), "statement": "no verdict depends on which of the two header-parsing paths handled the frame"})
+			oa, ob := a.all(), b.all()
+			for fi := range oa {
+				if !sameVerdict(oa[fi].v, ob[fi].v) || !bytes.Equal(oa[fi].st.canon(m2.now, nil), ob[fi].st.canon(m2.now, nil)) {
+					t.bad = true
+					x.report("parse-path", n.path, t.ei, fmt.Sprintf("the verdict or the resulting map state depends on the header-parsing path: pull mode %d (%s) -> %s ; pull mode %d (%s) -> %s%s",
+						a.mode, pathName(oa[fi].v), verdictString(oa[fi].v), b.mode, pathName(ob[fi].v), verdictString(ob[fi].v), stateDiff(oa[fi].st, ob[fi].st)),
+						map[string]any{"frame": hex.EncodeToString(skb.Frame), "hook": sc.hookName(ev), "maps_path_a": dumpState(oa[fi].st), "maps_path_b": dumpState(ob[fi].st), "statement": "no verdict depends on which of the two header-parsing paths handled the frame"})
+					break
+				}
+			}
+			if t.bad {
 				break
 			}
 		}
 		// (2) the statement, on every path
 		for _, r := range t.runs {
-			msg, det, pt := x.checkFrame(ev, skb, t.fs, t.ipOff, want, before, r, m2)
-			det["frame"] = hex.EncodeToString(skb.Frame)
-			det["hook"] = sc.hookName(ev)
-			det["parse_path"] = pathName(r.v)
-			det["statement"] = want.why
-			if msg != "" {
-				t.bad = true
-				det["maps_after"] = dumpState(r.st)
-				x.report(xName[want.kind], n.path, t.ei, msg, det)
+			prev := before
+			var handed []int
+			var pts []*peerTrial
+			var det map[string]any
+			failed := false
+			for fi, o := range r.all() {
+				w := t.wants[fi]
+				msg, d, pt := x.checkFrame(ev, skb, t.fs, t.ipOff, w, prev, o)
+				det = d
+				det["frame"] = hex.EncodeToString(skb.Frame)
+				det["hook"] = sc.hookName(ev)
+				det["parse_path"] = pathName(o.v)
+				det["statement"] = w.why
+				if len(t.wants) > 1 {
+					det["frame_of_burst"] = fi + 1
+				}
+				if msg != "" {
+					t.bad, failed = true, true
+					det["maps_after"] = dumpState(o.st)
+					x.report(xName[w.kind], n.path, t.ei, msg, det)
+					break
+				}
+				if pt != nil {
+					handed = append(handed, fi)
+					pts = append(pts, pt)
+				}
+				prev = o.st
+			}
+			if failed {
 				break
 			}
-			if r == t.runs[0] && len(n.path) >= 2 && !want.first {
+			// the control plane recovers the decision once per redirected frame, after the last frame of the event:
+			// the REAL RetrieveRoutingResult on the entries the kernel program left in the two maps
+			if len(handed) > 0 {
+				if msg := x.recoverAll(e, r.st, t, handed, det); msg != "" {
+					t.bad = true
+					det["maps_after"] = dumpState(r.st)
+					x.report("handover", n.path, t.ei, msg, det)
+					break
+				}
+			}
+			if r == t.runs[0] && len(n.path) >= 2 && !want.first && len(t.wants) == 1 {
 				switch want.kind {
 				case xHandover:
-					x.sample("later packet of a tracked flow handed over with its first packet's decision", n.path, t.ei, map[string]any{"verdict": verdictString(r.v), "recovered_by_control_plane": det["recovered"], "statement": want.why})
+					if len(handed) > 0 {
+						x.sample("later packet of a tracked flow handed over with its first packet's decision", n.path, t.ei, map[string]any{"verdict": verdictString(r.v), "recovered_by_control_plane": det["recovered"], "statement": want.why})
+					}
 				case xPass:
 					if !want.noCreate {
 						x.sample("later packet of a tracked flow let through", n.path, t.ei, map[string]any{"verdict": verdictString(r.v), "statement": want.why})
@@ -673,21 +768,25 @@ func (x *explorer) expand(e *kenv, n *node) []succ {
 					x.sample("later packet of a tracked flow dropped", n.path, t.ei, map[string]any{"verdict": verdictString(r.v), "statement": want.why})
 				}
 			}
-			if pt != nil {
+			for _, pt := range pts {
 				pt.det = det
 				t.peer = append(t.peer, pt)
-				sC.inject("tproxy_dae0peer_ingress", &vkern.Skb{Ifindex: peerIfindex, IngressIfindex: peerIfindex, Protocol: skb.Protocol, Cb: r.v.Cb, PktType: 3, Linear: ^uint32(0), Frame: r.v.Frame}, &pt.pv)
+				sC.inject("tproxy_dae0peer_ingress", &vkern.Skb{Ifindex: peerIfindex, IngressIfindex: peerIfindex, Protocol: skb.Protocol, Cb: pt.v.Cb, PktType: 3, Linear: ^uint32(0), Frame: pt.v.Frame}, &pt.pv)
 			}
 		}
-		if r := t.runs[0]; r.v.SkRefBalance != 0 {
-			t.bad = true
-			x.report("sk-ref", n.path, t.ei, fmt.Sprintf("socket reference balance %d after the program", r.v.SkRefBalance), nil)
+		for _, o := range t.runs[0].all() {
+			if o.v.SkRefBalance != 0 {
+				t.bad = true
+				x.report("sk-ref", n.path, t.ei, fmt.Sprintf("socket reference balance %d after the program", o.v.SkRefBalance), nil)
+			}
 		}
-		x.outcomes[want.kind].Add(1)
-		if want.first {
-			x.firstPkts.Add(1)
-		} else if want.kind != xUnspec && want.kind != xObserver && !want.noCreate {
-			x.stickyPkts.Add(1)
+		for _, w := range t.wants {
+			x.outcomes[w.kind].Add(1)
+			if w.first {
+				x.firstPkts.Add(1)
+			} else if w.kind != xUnspec && w.kind != xObserver && !w.noCreate {
+				x.stickyPkts.Add(1)
+			}
 		}
 	}
 	if len(sC.handlers) > 0 {
@@ -767,7 +866,7 @@ func (x *explorer) initialModel() *model {
 }
 
 // checkFrame compares one run of one frame with what the statement demands. Returns "" when it holds.
-func (x *explorer) checkFrame(ev *event, skb *vkern.Skb, fs *frameSpec, ipOff int, want expect, before *kstate, r *frameRun, m2 *model) (string, map[string]any, *peerTrial) {
+func (x *explorer) checkFrame(ev *event, skb *vkern.Skb, fs *frameSpec, ipOff int, want expect, before *kstate, r *frameObs) (string, map[string]any, *peerTrial) {
 	sc := x.sc
 	v := r.v
 	c := &sc.convs[ev.conv]
@@ -844,30 +943,6 @@ func (x *explorer) checkFrame(ev *event, skb *vkern.Skb, fs *frameSpec, ipOff in
 		if rewritten && (len(v.Frame) < 14 || !bytes.Equal(v.Frame[:6], macPeer[:])) {
 			return fmt.Sprintf("%s redirected to dae0 with destination MAC %x, dae0peer has %x", c.name, v.Frame[:6], macPeer), det, nil
 		}
-		// the control plane recovers the decision: RetrieveRoutingResult's steps on the maps as they are now
-		// (the control plane reads the record when the packet reaches its socket: a moment after the redirect)
-		got, found, err := control.VerifC03Retrieve(fs.src, fs.dst, c.proto, m2.now+recoverDelayNs, r.st.lookup)
-		det["go_lookup_key"] = hex.EncodeToString(control.VerifC03TuplesKey(fs.src, fs.dst, c.proto))
-		if err != nil {
-			return fmt.Sprintf("%s handed over but the control plane cannot decode the record: %v", c.name, err), det, nil
-		}
-		if !found {
-			return fmt.Sprintf("%s handed over but the control plane finds no record under the key bpfTuplesKeyFromAddrPorts computes", c.name), det, nil
-		}
-		from := got.From
-		got.From = ""
-		det["recovered"] = fmt.Sprintf("%+v (from %s)", got, from)
-		det["kernel_decision"] = fmt.Sprintf("%+v", want.rec)
-		if got != want.rec {
-			return fmt.Sprintf("%s handed over; the control plane recovers outbound=%d mark=%#x must=%d dscp=%d mac=%x pid=%d pname=%q from %s, the decision was outbound=%d mark=%#x must=%d dscp=%d mac=%x pid=%d pname=%q",
-				c.name, got.Outbound, got.Mark, got.Must, got.Dscp, got.Mac, got.Pid, cstr(got.Pname), from,
-				want.rec.Outbound, want.rec.Mark, want.rec.Must, want.rec.Dscp, want.rec.Mac, want.rec.Pid, cstr(want.rec.Pname)), det, nil
-		}
-		if from == "conn_state_map" {
-			x.recFrom[0].Add(1)
-		} else {
-			x.recFrom[1].Add(1)
-		}
 		// dae0peer ingress completes the hand-over (run afterwards, in one script)
 		wantSock := int32(-1)
 		if c.proto == ipUDP {
@@ -881,6 +956,54 @@ func (x *explorer) checkFrame(ev *event, skb *vkern.Skb, fs *frameSpec, ipOff in
 		return "", det, &peerTrial{v: v, wantSock: wantSock}
 	}
 	return "", det, nil
+}
+
+// recoverAll: after the last frame of the event the control plane handles the redirected frames one after the other;
+// for each of them the production RetrieveRoutingResult must give exactly the decision that frame was redirected with.
+func (x *explorer) recoverAll(e *kenv, st *kstate, t *trial, handed []int, det map[string]any) string {
+	sc := x.sc
+	c := &sc.convs[t.ev.conv]
+	fs := t.fs
+	var ck, cv, hk, hv [][]byte
+	for _, en := range st.maps[0] {
+		ck, cv = append(ck, en.Key), append(cv, en.Value)
+	}
+	for _, en := range st.maps[1] {
+		hk, hv = append(hk, en.Key), append(hv, en.Value)
+	}
+	if err := e.mir.Load(ck, cv, hk, hv, t.m2.now+recoverDelayNs); err != nil {
+		broken("loading the control plane's maps: %v", err)
+	}
+	det["go_lookup_key"] = hex.EncodeToString(control.VerifC03TuplesKey(fs.src, fs.dst, c.proto))
+	for n, fi := range handed {
+		want := t.wants[fi]
+		which := ""
+		if len(t.wants) > 1 {
+			which = fmt.Sprintf(" (datagram #%d of %d redirected back to back, read #%d)", fi+1, len(t.wants), n+1)
+		}
+		got, found, err := e.mir.Retrieve(fs.src, fs.dst, c.proto)
+		if err != nil {
+			return fmt.Sprintf("%s handed over%s but RetrieveRoutingResult fails: %v", c.name, which, err)
+		}
+		if !found {
+			return fmt.Sprintf("%s handed over%s but RetrieveRoutingResult finds no record (ErrKeyNotExist): the control plane cannot recover the kernel's decision", c.name, which)
+		}
+		from := got.From
+		got.From = ""
+		det["recovered"] = fmt.Sprintf("%+v (from %s)", got, from)
+		det["kernel_decision"] = fmt.Sprintf("%+v", want.rec)
+		if got != want.rec {
+			return fmt.Sprintf("%s handed over%s; the control plane recovers outbound=%d mark=%#x must=%d dscp=%d mac=%x pid=%d pname=%q from %s, the decision was outbound=%d mark=%#x must=%d dscp=%d mac=%x pid=%d pname=%q",
+				c.name, which, got.Outbound, got.Mark, got.Must, got.Dscp, got.Mac, got.Pid, cstr(got.Pname), from,
+				want.rec.Outbound, want.rec.Mark, want.rec.Must, want.rec.Dscp, want.rec.Mac, want.rec.Pid, cstr(want.rec.Pname))
+		}
+		if from == "conn_state_map" {
+			x.recFrom[0].Add(1)
+		} else {
+			x.recFrom[1].Add(1)
+		}
+	}
+	return ""
 }
 
 func cstr(b [16]uint8) string {
